@@ -1225,6 +1225,219 @@ fn run_boundary_case(case_seed: u64, only: Option<u64>, rep: &mut Report, verbos
     }
 }
 
+// ------------------------------------------------------------------------------------------------
+// several readers / writers alive at the same time (state shared between objects - a static buffer, a cache keyed too
+// coarsely - would be invisible to every single-object case)
+
+/// two or three Readers over different inputs, their items executed in a random interleaving
+fn run_interleaved_readers_case(case_seed: u64, _only: Option<u64>, rep: &mut Report, verbose: bool) {
+    let mut rng = Rng::new(case_seed);
+    rep.inc("evaluations");
+    rep.see("nontrivial", case_seed);
+    let k = rng.range_usize(2, 3);
+    let mut inputs: Vec<(Vec<Item>, Rc<Vec<u8>>, Vec<Res>)> = Vec::new();
+    for _ in 0..k {
+        let (script, bytes) = gen_input(&mut rng, 10, 300, false);
+        match model_run(&bytes, &script) {
+            Ok((want, _)) => inputs.push((script, Rc::new(bytes), want)),
+            Err(e) => {
+                rep.inconclusive(format!("reference model rejected a generated input (case {}): {}", case_seed, e));
+                return;
+            }
+        }
+    }
+    let replay = vec!["--mode".to_string(), "interleaved-readers".to_string(), "--case".to_string(), format!("{}", case_seed)];
+    let scheds: Vec<(Vec<Ins>, Tail)> = inputs.iter().map(|i| random_schedule(&mut rng, i.1.len().max(1), true)).collect();
+    // interleaving order: reader index per step
+    let mut order: Vec<usize> = Vec::new();
+    for (j, i) in inputs.iter().enumerate() {
+        order.extend(std::iter::repeat(j).take(i.0.len()));
+    }
+    rng.shuffle(&mut order);
+    let r = catch(|| {
+        let mut readers: Vec<Reader> = Vec::new();
+        for (j, i) in inputs.iter().enumerate() {
+            let log = Rc::new(RefCell::new(CallLog::default()));
+            let src = ScriptedRead { data: i.1.clone(), pos: 0, schedule: scheds[j].0.clone(), next: 0, tail: scheds[j].1.clone(), log };
+            readers.push(lib!(Reader::new(Box::new(src))));
+        }
+        let mut next = vec![0usize; inputs.len()];
+        let mut got: Vec<Vec<Res>> = vec![Vec::new(); inputs.len()];
+        for &j in &order {
+            let it = &inputs[j].0[next[j]];
+            next[j] += 1;
+            got[j].push(exec_item(&mut readers[j], it));
+        }
+        got
+    });
+    rep.inc("interleaved_reader_groups");
+    match r {
+        Ok(got) => {
+            for (j, g) in got.iter().enumerate() {
+                rep.inc("deliveries");
+                if *g != inputs[j].2 {
+                    let pos = g.iter().zip(inputs[j].2.iter()).position(|(a, b)| a != b).unwrap_or(0);
+                    rep.violation(
+                        "result_depends_on_other_readers",
+                        Json::obj()
+                            .set("what", "a reader's results differ from the values determined by its input bytes while other readers are alive and used in between")
+                            .set("reader", j)
+                            .set("readers_alive", inputs.len())
+                            .set("input", show_bytes(&inputs[j].1[..inputs[j].1.len().min(300)]))
+                            .set("script", format!("{:?}", inputs[j].0))
+                            .set("first_differing_item", pos)
+                            .set("got", format!("{:?}", g.get(pos)))
+                            .set("want", format!("{:?}", inputs[j].2.get(pos))),
+                        replay.clone(),
+                    );
+                }
+            }
+        }
+        Err(p) => {
+            if p.in_lib {
+                rep.violation("panic:interleaved_readers", Json::obj().set("panic", p.msg.as_str()).set("at", format!("{}:{}", p.file, p.line)), replay);
+            } else {
+                rep.inconclusive(format!("harness panic at {}:{}: {}", p.file, p.line, p.msg));
+            }
+        }
+    }
+    if verbose {
+        eprintln!("interleaving order {:?}", order);
+    }
+}
+
+/// sink that accepts at most `cap` bytes per call and keeps them in a shared vector
+struct SmallSink {
+    out: Rc<RefCell<Vec<u8>>>,
+    cap: usize,
+    calls: u64,
+}
+impl std::io::Write for SmallSink {
+    fn write(&mut self, buf: &[u8]) -> std::io::Result<usize> {
+        self.calls += 1;
+        if self.calls % 5 == 3 {
+            return Err(std::io::Error::new(std::io::ErrorKind::Interrupted, "scripted EINTR"));
+        }
+        let k = buf.len().min(self.cap).max(if buf.is_empty() { 0 } else { 1 });
+        self.out.borrow_mut().extend_from_slice(&buf[..k]);
+        Ok(k)
+    }
+    fn flush(&mut self) -> std::io::Result<()> {
+        Ok(())
+    }
+}
+
+/// two or three Writers alive at once, their writes interleaved; every sink must receive exactly its own stream
+fn run_interleaved_writers_case(case_seed: u64, _only: Option<u64>, rep: &mut Report, verbose: bool) {
+    use rlib_io::Writer;
+    let mut rng = Rng::new(case_seed);
+    rep.inc("evaluations");
+    rep.see("nontrivial", case_seed);
+    let k = rng.range_usize(2, 3);
+    let buf = Writer::verif_buf_size();
+    let replay = vec!["--mode".to_string(), "interleaved-writers".to_string(), "--case".to_string(), format!("{}", case_seed)];
+    let sinks: Vec<Rc<RefCell<Vec<u8>>>> = (0..k).map(|_| Rc::new(RefCell::new(Vec::new()))).collect();
+    let caps: Vec<usize> = (0..k).map(|_| *rng.pick(&[1usize, 7, 4096, 1 << 20])).collect();
+    let nsteps = rng.range_usize(4, 60);
+    let big = rng.chance(1, 3); // sometimes large strings so that the internal buffers fill up and flush mid-way
+    let r = catch(|| {
+        let mut expected: Vec<Vec<u8>> = vec![Vec::new(); k];
+        let mut log: Vec<String> = Vec::new();
+        {
+            let mut writers: Vec<Writer> = (0..k)
+                .map(|j| lib!(Writer::new(Box::new(SmallSink { out: sinks[j].clone(), cap: caps[j], calls: 0 }))))
+                .collect();
+            for step in 0..nsteps {
+                let j = rng.usize_below(k);
+                match rng.below(6) {
+                    0 => {
+                        let v = rng.next_u64() as i64 >> rng.below(60);
+                        lib!(writers[j].write(&v));
+                        expected[j].extend(format!("{}", v).bytes());
+                        log.push(format!("w{}: i64 {}", j, v));
+                    }
+                    1 => {
+                        let v = ((rng.next_u64() as u128) << 64 | rng.next_u64() as u128) >> rng.below(120);
+                        lib!(writers[j].write(&v));
+                        expected[j].extend(format!("{}", v).bytes());
+                        log.push(format!("w{}: u128 {}", j, v));
+                    }
+                    2 => {
+                        let len = if big { rng.range_usize(buf / 2, buf + 100) } else { rng.range_usize(0, 40) };
+                        let s: String = (0..len).map(|i| (b'a' + ((i + step + j) % 26) as u8) as char).collect();
+                        lib!(writers[j].write(&s));
+                        expected[j].extend(s.bytes());
+                        log.push(format!("w{}: string of {} bytes", j, len));
+                    }
+                    3 => {
+                        lib!(writers[j].write_char(' '));
+                        expected[j].push(b' ');
+                        log.push(format!("w{}: char", j));
+                    }
+                    4 => {
+                        let v: Vec<u16> = (0..rng.range_usize(0, 5)).map(|_| rng.next_u64() as u16).collect();
+                        lib!(writers[j].write(&v));
+                        let t: Vec<String> = v.iter().map(|x| x.to_string()).collect();
+                        expected[j].extend(t.join(" ").bytes());
+                        log.push(format!("w{}: vec {:?}", j, v));
+                    }
+                    _ => {
+                        lib!(writers[j].flush());
+                        log.push(format!("w{}: flush", j));
+                        if *sinks[j].borrow() != expected[j] {
+                            return Err((j, "after flush", log));
+                        }
+                    }
+                }
+                // prefix monitor on every writer after every step
+                for (x, sink) in sinks.iter().enumerate() {
+                    let sk = sink.borrow();
+                    if sk.len() > expected[x].len() || sk[..] != expected[x][..sk.len()] {
+                        return Err((x, "prefix", log));
+                    }
+                }
+            }
+            // drop in a random order
+            while !writers.is_empty() {
+                let j = rng.usize_below(writers.len());
+                drop(writers.remove(j));
+            }
+        }
+        for j in 0..k {
+            if *sinks[j].borrow() != expected[j] {
+                return Err((j, "after drop", log));
+            }
+        }
+        Ok(expected.iter().map(|e| e.len()).sum::<usize>())
+    });
+    rep.inc("interleaved_writer_groups");
+    match r {
+        Ok(Ok(bytes)) => rep.count("bytes_expected", bytes as u64),
+        Ok(Err((j, when, log))) => {
+            let tail: Vec<String> = log.iter().rev().take(40).rev().cloned().collect();
+            rep.violation(
+                format!("interleaved_writers:{}", when.replace(' ', "_")),
+                Json::obj()
+                    .set("what", "with several writers alive at once a sink did not receive exactly the renderings written to its own writer")
+                    .set("writer", j)
+                    .set("writers_alive", k)
+                    .set("when", when)
+                    .set("debug_assertions", cfg!(debug_assertions))
+                    .set("history_tail", Json::from(tail)),
+                replay,
+            );
+        }
+        Err(p) => {
+            if p.in_lib {
+                rep.violation("panic:interleaved_writers", Json::obj().set("panic", p.msg.as_str()).set("at", format!("{}:{}", p.file, p.line)), replay);
+            } else {
+                rep.inconclusive(format!("harness panic at {}:{}: {}", p.file, p.line, p.msg));
+            }
+        }
+    }
+    let _ = verbose;
+}
+
 fn main() {
     let eng = Engine::start("readmon");
     let a = &eng.args;
@@ -1240,6 +1453,8 @@ fn main() {
         "exhaustive" => (run_exhaustive_case, if thorough { 30_000 } else { 1500 }, 1),
         "random" => (run_random_case, if thorough { 6_000_000 } else { 300_000 }, 2),
         "boundary" => (run_boundary_case, if thorough { 30_000 } else { 1500 }, 3),
+        "interleaved-readers" => (run_interleaved_readers_case, if thorough { 2_000_000 } else { 100_000 }, 4),
+        "interleaved-writers" => (run_interleaved_writers_case, if thorough { 1_000_000 } else { 40_000 }, 5),
         m => panic!("unknown mode {}", m),
     };
     if let Some(c) = a.opt("case") {
